@@ -16,10 +16,17 @@
      in-chains are both a permutation of the links submitted one after another, hence
      for every page the out-targets and the in-sources read from the link store are,
      as multisets, those of the sequential run: same weights, inbound = transpose of
-     outbound. *)
+     outbound.
+   - C16_sandwich_partial (get_webentity_pages_iter interleaved with batches, partial):
+     whatever the schedule, a turn of a page query appends at most one pair (l, c), and
+     at that moment l is a page of the index with crawled mark c, lies under one of
+     the prefixes the query was started with, and its node carries no webentity unless
+     it is the prefix node itself.  NOT claimed: that no webentity lies strictly
+     between the prefix and l at that moment (false: a batch can attach a webentity to
+     an ancestor the traversal has already passed), nor completeness. *)
 From Coq Require Import List NArith Bool Permutation.
 From Traph Require Import Bytes Consts Helpers Rules Tst TstDefs Traph Spec Ops RefDefs
-  LinkFacts2 RefFull IdFacts PropsEx Sched SchedFacts SchedFacts2 SchedFacts3.
+  LinkFacts2 RefFull IdFacts PropsEx Sched SchedFacts SchedFacts2 SchedFacts3 SchedFacts4.
 Import ListNotations.
 Open Scope N_scope.
 
@@ -80,6 +87,28 @@ Theorem C16_observable : forall datas sched s0 a0, R s0 a0 ->
                  (map (fun t => lru_at t s_one) (targets_of (stubs s_one) (inh d')))).
 Proof. exact SchedFacts3.C16_observable. Qed.
 
+(* the page query interleaved with batches *)
+Theorem C16_sandwich_partial : forall cs0 sched s0 a0 i q0 q,
+  R s0 a0 -> Forall co_start_ok cs0 ->
+  let cs := fst (exec_sched sched cs0 s0) in
+  let s := snd (exec_sched sched cs0 s0) in
+  nth_error cs0 i = Some (CPages q0) -> nth_error cs i = Some (CPages q) ->
+  exists q', co_step (CPages q) s = (CPages q', s) /\
+    (q_acc q' = q_acc q \/
+     exists l c, q_acc q' = q_acc q ++ [(l, c)] /\ qual (q_prefixes q0) s l c).
+Proof. exact SchedFacts4.C16_sandwich_partial. Qed.
+
+Theorem C16_sandwich_partial_spec : forall cs0 sched s0 a0 i q0 q,
+  R s0 a0 -> Forall co_start_ok cs0 -> Forall wf_lru (q_prefixes q0) ->
+  let cs := fst (exec_sched sched cs0 s0) in
+  let s := snd (exec_sched sched cs0 s0) in
+  nth_error cs0 i = Some (CPages q0) -> nth_error cs i = Some (CPages q) ->
+  exists q' a, co_step (CPages q) s = (CPages q', s) /\ Rcore s a /\
+    (q_acc q' = q_acc q \/
+     exists l c, q_acc q' = q_acc q ++ [(l, c)] /\ In (l, c) (a_pages a) /\
+                 exists P0, In P0 (q_prefixes q0) /\ is_stem_prefix P0 l = true).
+Proof. exact SchedFacts4.C16_sandwich_partial_spec. Qed.
+
 (* non-vacuity: two batches sharing pages, run to completion under two schedules (one
    after the other; strictly alternating).  The two final indexes differ (the link
    store is laid out differently) but enumerate the same pages with the same marks and
@@ -116,9 +145,34 @@ Proof.
   intros l [<-|[<-|[<-|[<-|[]]]]]; split; vm_compute; reflexivity.
 Qed.
 
+(* non-vacuity of the query part: after the first batch, a page query on the webentity
+   prefix ex_pa run alone answers (pa, crawled), (px, not crawled); started first and
+   then interleaved with the second batch (which crawls px and adds pxy beneath it) it
+   answers (pa, crawled), (px, crawled), (pxy, not crawled): every answer was true when
+   it was given *)
+Definition c16_s1 : traph := fst (batch_crawl c16_d1 c16_s0).
+Definition c16_csq : list coro := [CBatch (batch_start c16_d2); CPages (pagesq_start [ex_pa])].
+Definition c16_answer (cs : list coro) : list (bytes * bool) * bool :=
+  match nth_error cs 1 with Some (CPages q) => (q_acc q, q_done q) | _ => ([], false) end.
+
+Example C16_query_nonvacuous :
+  Forall co_start_ok c16_csq /\
+  c16_answer (fst (exec_sched (repeat 1%nat 4) c16_csq c16_s1)) = ([(ex_pa, true); (ex_px, false)], true) /\
+  c16_answer (fst (exec_sched (1%nat :: repeat 0%nat 7 ++ repeat 1%nat 4) c16_csq c16_s1))
+    = ([(ex_pa, true); (ex_px, true); (ex_pxy, false)], true).
+Proof.
+  split.
+  - constructor; [exists c16_d2; split; [reflexivity|repeat constructor; cbn [fst snd]; wf_lru_tac]|].
+    constructor; [exists [ex_pa]; reflexivity|constructor].
+  - split; vm_compute; reflexivity.
+Qed.
+
 Print Assumptions C16_batch_alone.
 Print Assumptions C16_batch_step_inv.
 Print Assumptions C16_invariant.
 Print Assumptions C16_schedule_independent.
 Print Assumptions C16_observable.
+Print Assumptions C16_sandwich_partial.
+Print Assumptions C16_sandwich_partial_spec.
 Print Assumptions C16_nonvacuous.
+Print Assumptions C16_query_nonvacuous.
